@@ -616,14 +616,29 @@ func execC14(x *X) {
 				cfg = func(r *SimReader) { r.Zero = 2 + int(op.J); r.Chunks = []int{3} }
 			}
 			start := time.Now()
-			if op.K == "flip" {
+			switch op.K {
+			case "flip":
 				x.feed(data, where, int(op.N), nil, nil)
-			} else {
-				func() {
-					saved := d.Env
-					_ = saved
-					x.feedStream(data, where, int(op.N), cfg, ctx)
+			case "stall":
+				// the call runs on its own goroutine so that a call that never returns is a
+				// finding (a hang), not a deadlock of the simulator
+				done := make(chan struct{})
+				var stalled []*SimReader
+				go func() {
+					defer close(done)
+					x.feedStream(data, where, int(op.N), func(r *SimReader) { cfg(r); stalled = append(stalled, r) }, ctx)
 				}()
+				select {
+				case <-done:
+				case <-time.After(time.Duration(1+op.J)*time.Second + time.Hour):
+					x.Violate("hang:stalled-read-not-released-by-cancel", "a call reading from a stream that stalled at byte %d did not return although its context was cancelled %ds later (still blocked one simulated hour after)\n  input: %s", op.I, 1+op.J, where)
+					for _, r := range stalled {
+						r.Release()
+					}
+					<-done
+				}
+			default:
+				x.feedStream(data, where, int(op.N), cfg, ctx)
 			}
 			if cancel != nil {
 				cancel()
